@@ -37,6 +37,9 @@ func init() {
 		vxPath + ".MapOrders": extVxMapOrders,
 		vxPath + ".Symbolic":  func(fr *frame, args []value) value { return true },
 		vxPath + ".Ite":       extVxIte,
+		vxPath + ".And":       func(fr *frame, args []value) value { return boolVal(tAnd(toTerm(args[0]), toTerm(args[1]))) },
+		vxPath + ".Or":        func(fr *frame, args []value) value { return boolVal(tOr(toTerm(args[0]), toTerm(args[1]))) },
+		vxPath + ".Not":       func(fr *frame, args []value) value { return boolVal(tNot(toTerm(args[0]))) },
 		vxPath + ".EpochMark": extVxEpochMark,
 		vxPath + ".Monitor":   extVxMonitor,
 
